@@ -298,6 +298,13 @@ class JsonBlob:
     def decode(self, enc="ascii"):
         return self
 
+    def __len__(self):
+        """length of the text json.dumps would produce with default separators (all lengths are concrete)"""
+        n = 2
+        for i, (k, v) in enumerate(self.obj.items()):
+            n += (2 if i else 0) + len(k) + 2 + 2 + len(v) + 2
+        return n
+
 
 class _JsonShim:
     @staticmethod
